@@ -191,7 +191,7 @@ func (w *c18aWorld) Run(c *kernel.RunCtx) {
 	}
 	ntasks := 2 + c.Choose(4)
 	// swarm: which operation kinds exist in this run
-	kinds := []string{"QFee", "QAdd", "QExpiry", "QUpdateExpiry", "QExpired", "QMarshal", "QUnmarshal", "SAddDefault", "SAddMiner", "SQuote", "SFee", "SUpdate", "consume"}
+	kinds := []string{"QFee", "QAdd", "QExpiry", "QUpdateExpiry", "QExpired", "QMarshal", "QUnmarshal", "SAddDefault", "SAddMiner", "SQuote", "SFee", "SUpdate", "consume", "SJSON"}
 	wts := make([]int, len(kinds))
 	for i := range wts {
 		wts[i] = 1 + c.Choose(5)
@@ -317,6 +317,12 @@ func (w *c18aWorld) Run(c *kernel.RunCtx) {
 				q := quotes[in.Quote]
 				if op.consume > 0 {
 					w.consume(q, op.consume)
+					continue
+				}
+				if in.Kind == "SJSON" {
+					// the container itself through encoding/json (read-only; today it has no JSON form of its own and gives "{}";
+					// what is returned is not judged, only what is touched on the way)
+					_, _ = json.Marshal(fqs)
 					continue
 				}
 				call := simrt.Stamp()
@@ -623,7 +629,16 @@ func (w *c18bWorld) Run(c *kernel.RunCtx) {
 		c.Count("probe.twin_validations", 1)
 	}
 	c.End()
-	canaries() // baseline verdicts are taken before this process has run anything else in this world
+	// Baseline verdicts are taken before this process has run anything else in this world -- except in every other
+	// worker process, which starts COLD: there the very first library code the process executes is the concurrent
+	// phase itself (state that is initialised once per process, on first use, is initialised by racing tasks), and
+	// the canaries are first run afterwards, against what consensus says about them.
+	coldStart := canaryList == nil && c.RunIdx%2 == 1 // the odd shards
+	if coldStart {
+		c.Count("probe.cold_process_concurrent_first", 1)
+	} else {
+		canaries()
+	}
 	eng := interpreter.NewEngine()
 	outs := make([]outcome, ntasks)
 	recs := make([]*recorder, ntasks)
@@ -687,6 +702,12 @@ func (w *c18bWorld) Run(c *kernel.RunCtx) {
 		name string
 		eng  interpreter.Engine
 	}{{"the shared engine", eng}, {"a fresh engine", interpreter.NewEngine()}} {
+		if canaryList == nil {
+			if bad := buildCanaries(); bad != "" {
+				c.Fail("cross-contamination", "canary", "after the concurrent validations (the first library code this process executed) %s", bad)
+				return
+			}
+		}
 		for ci, cn := range canaries() {
 			c.Exec()
 			got := execProgramOn(e.eng, cn.prog, nil)
@@ -718,6 +739,15 @@ func canaries() []canary {
 	if canaryList != nil {
 		return canaryList
 	}
+	if bad := buildCanaries(); bad != "" {
+		panic("harness: in a pristine process " + bad + ": instrumentation fault or a sequential defect outside C18")
+	}
+	return canaryList
+}
+
+// buildCanaries executes the canaries for the first time in this process and keeps their outcomes; it returns a
+// description of the first one whose verdict is not what consensus says.
+func buildCanaries() string {
 	raw := []*program{
 		{unlock: []byte{0x51}, lock: []byte{0x6a}, flags: parseFlags("P2SH,STRICTENC"), src: "canary pre-genesis OP_RETURN"},
 		{unlock: []byte{0x51}, lock: []byte{0x6a}, flags: parseFlags("UTXO_AFTER_GENESIS"), src: "canary post-genesis OP_RETURN"},
@@ -739,11 +769,12 @@ func canaries() []canary {
 	for i, p := range raw {
 		got := execProgram(p, nil)
 		if i < len(truth) && (got.class == "ok") != truth[i] {
-			panic(fmt.Sprintf("harness: in a pristine process the instrumented build answers %s for canary %d (%s), consensus says valid=%v: instrumentation fault or a sequential defect outside C18", got, i, p.src, truth[i]))
+			canaryList = nil
+			return fmt.Sprintf("the instrumented build answers %s for canary %d (%s), consensus says valid=%v", got, i, p.src, truth[i])
 		}
 		canaryList = append(canaryList, canary{p, got})
 	}
-	return canaryList
+	return ""
 }
 
 func mustHex(h string) []byte {
